@@ -119,6 +119,9 @@ def catalogue():
         # digits only, no exponent: the value is an integer beyond the float range
         ("number-400-digit-integer-to-printf-format", new_vec("Number", "DEV", "NUMBER_V", [one_child("Number", "N0", "1" + "0" * 400)]), {("NUMBER_V", "N0")}),
         ("number-400-digit-integer-to-sexagesimal-format", new_vec("Number", "DEV", "NUMBER_V", [one_child("Number", "N2", "-" + "9" * 400)]), {("NUMBER_V", "N2")}),
+        # an integer that still fits a float, but not after scaling by the sexagesimal unit count
+        ("number-306-digit-integer-to-sexagesimal-format", new_vec("Number", "DEV", "NUMBER_V", [one_child("Number", "N2", "1" + "0" * 305)]), {("NUMBER_V", "N2")}),
+        ("number-308-digit-integer-to-printf-format", new_vec("Number", "DEV", "NUMBER_V", [one_child("Number", "N0", "-" + "9" * 308)]), {("NUMBER_V", "N0")}),
         ("number-400-digit-fraction", new_vec("Number", "DEV", "NUMBER_V", [one_child("Number", "N0", "0." + "0" * 400 + "1")]), {("NUMBER_V", "N0")}),
         ("number-tiny-to-sexagesimal-format", new_vec("Number", "DEV", "NUMBER_V", [one_child("Number", "N2", "1e-320")]), {("NUMBER_V", "N2")}),
         ("number-huge-sexagesimal", new_vec("Number", "DEV", "NUMBER_V", [one_child("Number", "N0", "1e400:30")]), set()),
@@ -138,6 +141,11 @@ def catalogue():
         ("client-sends-setBLOBVector", '<setBLOBVector device="DEV" name="BLOB_V" state="Ok"><oneBLOB name="B0" size="3" format=".b">QUJD</oneBLOB></setBLOBVector>', set()),
         ("client-sends-delProperty", '<delProperty device="DEV" name="TEXT_V"/>', set()),
         ("client-sends-delProperty-device", '<delProperty device="DEV"/>', set()),
+        # perfectly valid messages, laid out with EMPTY lines: pretty-printed, CR LF peers, a paragraph break inside a text value
+        ("blank-line-before-message", '\n\n<newTextVector device="DEV" name="TEXT_V"><oneText name="T0">after blank lines</oneText></newTextVector>', {("TEXT_V", "T0")}),
+        ("blank-line-inside-message", '<newTextVector device="DEV" name="TEXT_V">\n\n  <oneText name="T0">laid out</oneText>\n\n</newTextVector>', {("TEXT_V", "T0")}),
+        ("crlf-blank-line-inside-message", '<newTextVector device="DEV" name="TEXT_V">\r\n\r\n<oneText name="T0">crlf</oneText>\r\n</newTextVector>\r\n\r\n', {("TEXT_V", "T0")}),
+        ("paragraph-break-in-text-value", '<newTextVector device="DEV" name="TEXT_V"><oneText name="T0">first\n\nsecond</oneText></newTextVector>', {("TEXT_V", "T0")}),
         ("client-sends-message", '<message device="DEV" message="hi"/>', set()),
         ("client-sends-message-without-device", '<message message="hi"/>', set()),
         ("client-sends-message-with-timestamp-only", '<message device="DEV" timestamp="2024-01-02T03:04:05"/>', set()),
@@ -247,7 +255,9 @@ class Conn:
             else:
                 self.link.s_reader.feed_data(data)
         elif self.transport == "tty":
-            self.stdin.feed(text + "\n")
+            # a terminal hands the text over line by line (readline): an empty line is the string "\n", only end of input is ""
+            for line in (text + "\n").splitlines(keepends=True):
+                self.stdin.feed(line)
         else:
             import indi.message as M
             for part in text.split("\n"):
